@@ -2,6 +2,9 @@ import PrysmVerif.Generated.C19
 import PrysmVerif.Lemmas.C19
 import PrysmVerif.Lemmas.C19Matrix
 import Mathlib.Analysis.SpecialFunctions.Sqrt
+import Mathlib.Analysis.Calculus.Deriv.Mul
+import Mathlib.Analysis.Calculus.Deriv.Add
+import Mathlib.Analysis.Calculus.Deriv.Inv
 /-!
 # C19 — ray tracing obeys Snell's law and keeps rays on surfaces   (partial)
 
@@ -342,6 +345,35 @@ theorem offaxis_normal (sqrt : K → K) (hs : ∀ x, 0 ≤ x → sqrt x * sqrt x
   · refine V3.ext' ?_ ?_ ?_ <;> simp only [] <;> field_simp
     all_goals first | ring1 | linear_combination (-1 : K) * hφ
 
+/-- real analysis (no parameters): over `ℝ` with the real square root, `conic_sag_der` IS the derivative of
+`conic_sag` with respect to the radial coordinate, wherever `1 − (1+κ)c²ρ² > 0` -/
+theorem conic_sag_derivative (c k ρ : ℝ) (h : 0 < phiSq c k (ρ * ρ)) :
+    HasDerivAt (fun t : ℝ => Generated.C19.conicSag Real.sqrt c k (t * t))
+      (Generated.C19.conicSagDer Real.sqrt c k ρ) ρ := by
+  have e1 : (fun t : ℝ => Generated.C19.conicSag Real.sqrt c k (t * t)) =
+      fun t : ℝ => conicSag c (t * t) (Real.sqrt (phiSq c k (t * t))) := by
+    funext t; exact (gen_conic Real.sqrt c k 0 (t * t) 0).1
+  rw [e1, (gen_conic Real.sqrt c k ρ 0 0).2.1]
+  have h0 : HasDerivAt (fun t : ℝ => t * t) (1 * ρ + ρ * 1) ρ := HasDerivAt.mul (hasDerivAt_id' ρ) (hasDerivAt_id' ρ)
+  have hu : HasDerivAt (fun t : ℝ => phiSq c k (t * t)) (-((1 + k) * (c * c) * (1 * ρ + ρ * 1))) ρ := by
+    have h1 := HasDerivAt.const_mul ((1 + k) * (c * c)) h0
+    exact HasDerivAt.const_sub 1 h1
+  have hs := HasDerivAt.sqrt hu (ne_of_gt h)
+  have hden := HasDerivAt.const_add 1 hs
+  have hnum : HasDerivAt (fun t : ℝ => c * (t * t)) (c * (1 * ρ + ρ * 1)) ρ := HasDerivAt.const_mul c h0
+  have hφpos : 0 < Real.sqrt (phiSq c k (ρ * ρ)) := Real.sqrt_pos.mpr h
+  have hne : 1 + Real.sqrt (phiSq c k (ρ * ρ)) ≠ 0 := by positivity
+  have hd := HasDerivAt.fun_div hnum hden hne
+  simp only [conicSag, conicSagDer]
+  refine hd.congr_deriv ?_
+  have hφ2 : Real.sqrt (phiSq c k (ρ * ρ)) * Real.sqrt (phiSq c k (ρ * ρ)) = phiSq c k (ρ * ρ) :=
+    Real.mul_self_sqrt h.le
+  have hφ0 : Real.sqrt (phiSq c k (ρ * ρ)) ≠ 0 := ne_of_gt hφpos
+  generalize Real.sqrt (phiSq c k (ρ * ρ)) = φ at *
+  simp only [phiSq] at hφ2
+  field_simp
+  linear_combination (2 * c * ρ) * hφ2
+
 /-! ## the polar route to the gradient, and the axis of symmetry -/
 
 /-- `surface_normal_from_cylindrical_derivatives` never divides by zero — in particular not for the
@@ -397,6 +429,87 @@ theorem conic_code_gradient (sqrt : K → K) (c k r cost sint : K) (hcs : cost *
 theorem conic_vertex (sqrt : K → K) (c k : K) :
     sagNormal sqrt (.conic c k) 0 0 = (0, ⟨0, 0, 1⟩) := by
   simp only [sagNormal, sagGrad, conicSag, Model.C19.normalOfGrad, mul_zero, add_zero, zero_div, neg_zero]
+
+/-- the public polar functions `off_axis_conic_sag / off_axis_conic_der` (section shifted in x) ARE the parent conic at
+shifted coordinates: sag `= c A/(1+φ)` with `A = (x+s)² + y²`, and `(∂_r, ∂_t)` are the chain-rule images
+`f_x cos t + f_y sin t`, `r (f_y cos t − f_x sin t)` of the Cartesian gradient `c (x+s, y)/φ` -/
+theorem offaxis_polar_dx (sqrt : K → K) (c k r cost sint s φ : K) (hcs : cost * cost + sint * sint = 1)
+    (hφdef : φ = sqrt (phiSq c k ((r * cost + s) * (r * cost + s) + r * sint * (r * sint))))
+    (hφ : φ * φ = phiSq c k ((r * cost + s) * (r * cost + s) + r * sint * (r * sint)))
+    (h0 : φ ≠ 0) (h1 : 1 + φ ≠ 0) :
+    let A := (r * cost + s) * (r * cost + s) + r * sint * (r * sint)
+    let fx := c * (r * cost + s) / φ
+    let fy := c * (r * sint) / φ
+    Generated.C19.offAxisSagDx sqrt c k r cost sint s = conicSag c A φ ∧
+    Generated.C19.offAxisDerRDx sqrt c k r cost sint s = fx * cost + fy * sint ∧
+    Generated.C19.offAxisDerTDx sqrt c k r cost sint s = r * (fy * cost - fx * sint) := by
+  intro A fx fy
+  have hagg : r * r + 2 * s * r * cost + s * s = A := by
+    show _ = (r * cost + s) * (r * cost + s) + r * sint * (r * sint)
+    linear_combination (-(r * r)) * hcs
+  have hagg' : (r * cost + s) * (r * cost + s) + r * sint * (r * sint) = A := rfl
+  simp only [Generated.C19.offAxisSagDx, Generated.C19.offAxisDerRDx, Generated.C19.offAxisDerTDx, hagg, hagg', conicSag,
+    phiSq]
+  have e : sqrt (1 - (1 + k) * (c * c) * A) = φ := by rw [hφdef]; rfl
+  simp only [e]
+  simp only [phiSq] at hφ
+  refine ⟨trivial, ?_, ?_⟩
+  · simp only [fx, fy]
+    field_simp
+    first
+      | linear_combination (c * (r + s * cost)) * hφ - (c * r * (1 + φ) ^ 2) * hcs
+      | ring1
+  · simp only [fx, fy]
+    field_simp
+    first
+      | linear_combination (-(c * r * s * sint)) * hφ
+      | ring1
+
+/-- the same for a section shifted in y -/
+theorem offaxis_polar_dy (sqrt : K → K) (c k r cost sint s φ : K) (hcs : cost * cost + sint * sint = 1)
+    (hφdef : φ = sqrt (phiSq c k (r * cost * (r * cost) + (r * sint + s) * (r * sint + s))))
+    (hφ : φ * φ = phiSq c k (r * cost * (r * cost) + (r * sint + s) * (r * sint + s)))
+    (h0 : φ ≠ 0) (h1 : 1 + φ ≠ 0) :
+    let A := r * cost * (r * cost) + (r * sint + s) * (r * sint + s)
+    let fx := c * (r * cost) / φ
+    let fy := c * (r * sint + s) / φ
+    Generated.C19.offAxisSagDy sqrt c k r cost sint s = conicSag c A φ ∧
+    Generated.C19.offAxisDerRDy sqrt c k r cost sint s = fx * cost + fy * sint ∧
+    Generated.C19.offAxisDerTDy sqrt c k r cost sint s = r * (fy * cost - fx * sint) := by
+  intro A fx fy
+  have hagg : r * r + 2 * s * r * sint + s * s = A := by
+    show _ = r * cost * (r * cost) + (r * sint + s) * (r * sint + s)
+    linear_combination (-(r * r)) * hcs
+  have hagg' : r * cost * (r * cost) + (r * sint + s) * (r * sint + s) = A := rfl
+  simp only [Generated.C19.offAxisSagDy, Generated.C19.offAxisDerRDy, Generated.C19.offAxisDerTDy, hagg, hagg', conicSag,
+    phiSq]
+  have e : sqrt (1 - (1 + k) * (c * c) * A) = φ := by rw [hφdef]; rfl
+  simp only [e]
+  simp only [phiSq] at hφ
+  refine ⟨trivial, ?_, ?_⟩
+  · simp only [fx, fy]
+    field_simp
+    first
+      | linear_combination (c * (r + s * sint)) * hφ - (c * r * (1 + φ) ^ 2) * hcs
+      | ring1
+  · simp only [fx, fy]
+    field_simp
+    first
+      | linear_combination (c * r * s * cost) * hφ
+      | ring1
+
+/-- feeding polar derivatives that are the chain-rule images of a Cartesian gradient `(f_x, f_y)` through
+`surface_normal_from_cylindrical_derivatives` gives `(f_x, f_y)` back, off the axis -/
+theorem cyl_normal_roundtrip (fx fy r cost sint : K) (hr : r ≠ 0) (hcs : cost * cost + sint * sint = 1) :
+    Generated.C19.cylNormalX (fx * cost + fy * sint) (r * (fy * cost - fx * sint)) r cost sint = fx ∧
+    Generated.C19.cylNormalY (fx * cost + fy * sint) (r * (fy * cost - fx * sint)) r cost sint = fy := by
+  have e := gen_cyl (fx * cost + fy * sint) (r * (fy * cost - fx * sint)) r cost sint
+  simp only [cylNormalTotal, Prod.mk.injEq, decide_eq_true_eq, hr, if_false] at e
+  obtain ⟨ex, ey⟩ := e
+  rw [ex, ey]
+  constructor <;> field_simp
+  · first | linear_combination fx * hcs | linear_combination (fx * r) * hcs
+  · first | linear_combination fy * hcs | linear_combination (fy * r) * hcs
 
 /-! ## intersection -/
 
